@@ -699,6 +699,91 @@ def check_extreme_first(h: Harness, tmp: str):
                         f"{desc}: is_best flags {flags}", [repr(first), minimize])
 
 
+def check_users_own_order(h: Harness, tmp: str):
+    """a problem whose author overrides `is_better` (lexicographic: the first component decides, the second breaks ties -- whatever the
+    aggregate says): the best-only log has a row exactly for the registrations THAT order calls a strict improvement on the incumbent"""
+    class Lexicographic(MultiObjectiveProblem):
+        def is_better(self, a, b):
+            return tuple(a.fitness_components) > tuple(b.fitness_components)
+    rng = h.rng
+    for trial in range(h.n(20, 200)):
+        n = rng.randint(3, 9)
+        hist = [(rng.randint(0, 3), rng.choice([0, 9, 20, 50])) for _ in range(n)]
+        path = os.path.join(tmp, f"lex{len(os.listdir(tmp))}.csv")
+        problem = Lexicographic([False, False], lambda p: [float(x) for x in p.fit])
+        recorder = CSVSearchRecorder(path, problem, only_record_best_individuals=True)
+        spy = Spy()
+        tracker = SingleObjectiveProgressTracker(problem, recorders=[recorder, spy])
+        desc = f"best-only log under the real single-objective tracker, problem with its own is_better (lexicographic on the components), history {hist}"
+        try:
+            for j, comps in enumerate(hist):
+                tracker.evaluate([make_ind(j, 4 * j, list(comps))])
+            recorder.csv_file.flush()
+        except Exception as e:  # noqa: BLE001
+            h.fail("SingleObjectiveProgressTracker.evaluate", "raises", f"{desc}: raised {type(e).__name__}: {e}", [hist])
+            continue
+        finally:
+            recorder.csv_file.close()
+        flags = [f for (_, f) in spy.log]
+        want, inc = [], None
+        for comps in hist:
+            better = inc is None or tuple(comps) > inc
+            want.append(better)
+            if better:
+                inc = tuple(comps)
+        snap, prob = read_snapshot(path)
+        rows = len(snap) - 1 if snap else -1
+        h.count("users-own-order")
+        h.seen(f"lex:{hist}", nontrivial=sum(want) >= 2)
+        if flags != want:
+            h.fail("SingleObjectiveProgressTracker.evaluate", "row-flagged-best-is-not-a-strict-improvement",
+                   f"{desc}: is_best flags {flags}; by the problem's own order the strict improvements on the incumbent are {want}", [hist])
+        elif rows != sum(want):
+            h.fail("CSVSearchRecorder.register", "column-not-faithful", f"{desc}: {sum(want)} registrations are improvements, the file has {rows} rows", [hist])
+
+
+def check_extra_fields_of_programs_that_print_alike(h: Harness, tmp: str):
+    """SimpleGP's extra columns are computed from the ROW'S OWN program -- also when the programs' `__str__` does not tell them apart (constants
+    printed rounded, a pretty-printer that abbreviates)"""
+    from geml.simplegp import SimpleGP
+
+    class Rounded:
+        def __init__(self, pid, v):
+            self.id, self.v, self.fit = pid, v, [v]
+
+        def __str__(self):
+            return f"Const({self.v // 10 * 10})"
+    rng = h.rng
+    for trial in range(h.n(6, 60)):
+        n = rng.randint(4, 10)
+        vals = [rng.randint(0, 39) for _ in range(n)]
+        path = os.path.join(tmp, f"alike{len(os.listdir(tmp))}.csv")
+        problem = SingleObjectiveProblem(lambda p: float(p.v), minimize=False)
+        try:
+            tracker = SimpleGP.build_recorder(None, problem, path, False, False, {"Value": lambda p: f"v{p.v}", "Twice": lambda p: f"w{2 * p.v}"})
+            recorder = tracker.recorders[0]
+            for j, v in enumerate(vals):
+                ind = Individual(genotype=j, representation=StubRepresentation())
+                ind.phenotype = Rounded(j, v)
+                tracker.evaluate([ind])
+            recorder.csv_file.flush()
+            recorder.csv_file.close()
+            with open(path, newline="") as f:
+                rows = list(csv.DictReader(f))
+        except Exception as e:  # noqa: BLE001
+            h.fail("SimpleGP.build_recorder", "raises", f"extra fields over programs that print alike: {type(e).__name__}: {e}", [vals])
+            continue
+        h.count("extra-fields-of-programs-that-print-alike")
+        h.seen(f"alike:{vals}", nontrivial=len({v // 10 for v in vals}) < len(set(vals)))
+        got = [(r.get("Value"), r.get("Twice")) for r in rows]
+        want = [(f"v{v}", f"w{2 * v}") for v in vals]
+        if got != want:
+            j = next((k for k in range(min(len(got), len(want))) if got[k] != want[k]), min(len(got), len(want)))
+            h.fail("SimpleGP.build_recorder", "column-not-faithful",
+                   f"SimpleGP.build_recorder with extra fields Value / Twice over programs with values {vals} (printed rounded to tens): row {j} shows "
+                   f"{got[j] if j < len(got) else 'nothing'}, the row's own program gives {want[j] if j < len(want) else 'nothing'}", [vals, j])
+
+
 TINY_SCALES = [("1+k*2^-52", lambda k: 1.0 + k * 2.0 ** -52), ("2e5+k*1e-6", lambda k: 200000.0 + k * 1e-6), ("1e12+k*2^-12", lambda k: 1e12 + k * 2.0 ** -12),
                ("-(3+k*1e-12)", lambda k: -(3.0 + (50 - k) * 1e-12)), ("k*1e-300", lambda k: k * 1e-300), ("k", float)]
 
@@ -751,6 +836,8 @@ def run(h: Harness):
     tmp = tempfile.mkdtemp(prefix="c20-", dir="/tmp")
     try:
         check_extreme_first(h, tmp)
+        check_users_own_order(h, tmp)
+        check_extra_fields_of_programs_that_print_alike(h, tmp)
         check_tiny_improvements(h, tmp)
         check_second_search_same_log(h, tmp)
         check_reregistered_individuals(h, tmp)
